@@ -1296,6 +1296,8 @@ class dictable(Dict):
             raise ValueError('x must be columns %s'%x)
         agg = as_list(agg)
         x = as_tuple(x)
+        if len(self) == 0:
+            return type(self)([], x) ## no rows: no x keys and no y labels, as listby and groupby return an empty table (the grouping below sees one group of no rows and raised TypeError)
         xykeys = x + as_tuple(y)
         xys, ids = self._listby(xykeys)
         zs = self[z]
